@@ -64,6 +64,17 @@ SYSTEMS = {
     "D": ([("W", [5, 3, 4]), ("F", 2), ("M",), ("R", 2), ("C",)], "walk"),
     "E": ([("W", [5, 3, 4, 2]), ("F", 4), ("M",), ("R", 1), ("R", 1)], "walk"),
 }
+# targeted families (always run completely): (1) every interleaving of the 4 flush steps and the 3 steps of an
+# out-of-order merge after "5 flushed in order, 3 flushed out of order, 4 written" (the flush carries an out-of-order
+# batch and can land between any two critical sections of the merge, in particular between the two sections of its
+# tail); (2) a forced flush requested while the shard's own background snapshot is in flight: the model says the swap
+# is disabled (single snapshot slot), the implementation must block (negative probe, entry -(actor+1))
+MF = {"sys": [("W", [5, 3, 4]), ("F", 3), ("M",), ("R", 1)],
+      "prefix": [0, 0, 1, 1, 1, 1, 0, 0, 1, 1, 1, 1, 0, 0], "allowed": [1, 2], "tail": [3, 3, 3, 3, 3]}
+BG = {"sys": [("W", [5, 3]), ("B", 1), ("F", 1), ("R", 1)],
+      "scheds": [[0, 0, 1, -3, 0, 0, 1, 1, 1, 2, 2, 2, 2, 3, 3, 3, 3, 3],
+                 [0, 0, 1, 1, -3, 1, 1, 0, 0, 2, 2, 2, 2, 3, 3, 3, 3, 3],
+                 [0, 0, 1, 1, 1, -3, 0, 0, 3, 3, 3, 3, 3, 1, 2, 2, 2, 2]]}
 WITNESS = {"sys": [("W", [5, 3, 4]), ("F", 3), ("M",), ("R", 1)],
            "sched": [0, 0, 1, 1, 1, 1, 0, 0, 1, 1, 1, 1, 0, 0, 1, 1, 2, 2, 2, 1, 1, 3, 3, 3, 3, 3]}
 
@@ -73,7 +84,7 @@ def coq_spec(a):
         return "SW [%s]" % "; ".join(str(b) for b in a[1])
     if a[0] == "R":
         return "SR %d" % a[1]
-    if a[0] == "F":
+    if a[0] in ("F", "B"):      # the background snapshot is one more flusher of the model
         return "SF %d" % a[1]
     if a[0] == "M":
         return "SM"
@@ -85,7 +96,7 @@ def coq_spec(a):
 def json_spec(a):
     if a[0] == "W":
         return {"k": "W", "bs": a[1]}
-    if a[0] in ("R", "F"):
+    if a[0] in ("R", "F", "B"):
         return {"k": a[0], "n": a[1]}
     return {"k": a[0]}
 
@@ -122,12 +133,18 @@ def strip_for_repaired(specs, sched):
     cnt = {}
     out = []
     for i in sched:
+        if i < 0:
+            continue
         k = cnt.get(i, 0)
         cnt[i] = k + 1
-        if specs[i][0] == "F" and k % 4 == 1:
+        if specs[i][0] in ("F", "B") and k % 4 == 1:
             continue
         out.append(i)
     return out
+
+
+def no_probes(sched):
+    return [i for i in sched if i >= 0]
 
 
 def truncate_after_close(specs, sched):
@@ -155,6 +172,8 @@ def sched_oracle(specs, sched, results):
     fails = []
     qstart = {}         # (reader, qno) -> acked snapshot
     for i in sched:
+        if i < 0:
+            continue
         k = cnt.get(i, 0)
         cnt[i] = k + 1
         kind = specs[i][0]
@@ -181,10 +200,12 @@ def in_orphan_signature(specs, sched):
     cnt = {}
     fetched = set()   # flushers that have fetched the list object and not yet appended
     for i in sched:
+        if i < 0:
+            continue
         k = cnt.get(i, 0)
         cnt[i] = k + 1
         kind = specs[i][0]
-        if kind == "F":
+        if kind in ("F", "B"):
             if k % 4 == 1:
                 fetched.add(i)
             elif k % 4 == 2:
@@ -240,6 +261,17 @@ def gen_schedules(ck, n_enum, n_walk, rng):
             cl = "[" + "; ".join(coq_nats(c) for c in choices) + "]"
             defs.append("Definition S_%s := Eval vm_compute in map (walk_sys %s) %s.\nPrint S_%s." % (name, sp, cl, name))
         order.append(name)
+    sp = "[" + "; ".join(coq_spec(a) for a in MF["sys"]) + "]"
+    defs.append("Definition S_MF := Eval vm_compute in enum_from %s %s %s 12.\nPrint S_MF."
+                % (sp, coq_nats(MF["prefix"]), coq_nats(MF["allowed"])))
+    # the negative probes of family BG: the model must say "disabled" at each probe
+    sp = "[" + "; ".join(coq_spec(a) for a in BG["sys"]) + "]"
+    probes = []
+    for sc in BG["scheds"]:
+        for pos, i in enumerate(sc):
+            if i < 0:
+                probes.append("blocked_after %s %s %d" % (sp, coq_nats(no_probes(sc[:pos])), -i - 1))
+    defs.append("Definition P_BG := Eval vm_compute in [%s].\nPrint P_BG." % "; ".join(probes))
     txt = ("From Coq Require Import List Arith.\nFrom OG Require Import C04.Model C04.Corr.\nImport ListNotations.\n"
            + "\n".join(defs) + "\n")
     rc, out = ck.coq_eval("gen_sched", txt, timeout=600)
@@ -268,6 +300,18 @@ def gen_schedules(ck, n_enum, n_walk, rng):
                 continue
             seen.add(key)
             cases.append({"sys": name, "specs": specs, "sched": s, "tag": name})
+    m = re.search(r"S_MF\s*=\s*(\[.*?\])\s*:\s*list", out, re.S)
+    mf = parse_nested(m.group(1)) if m else []
+    if len(mf) < 30:
+        ck.broken.append("family MF (flush x merge interleavings) was not enumerated: %d schedules" % len(mf))
+    for s in mf:
+        cases.append({"sys": "MF", "specs": MF["sys"], "sched": s + MF["tail"], "tag": "MF"})
+    m = re.search(r"P_BG\s*=\s*\[(.*?)\]\s*:\s*list", out, re.S)
+    if not m or "false" in m.group(1) or "true" not in m.group(1):
+        ck.broken.append("family BG: the model does not say 'disabled' at a negative probe: %s" % (m.group(1) if m else out[-300:]))
+    else:
+        for s in BG["scheds"]:
+            cases.append({"sys": "BG", "specs": BG["sys"], "sched": s, "tag": "BG"})
     return cases
 
 
@@ -280,7 +324,7 @@ def eval_cases(ck, cases, variant):
         items = []
         for c in chunk:
             specs = c["specs"]
-            sched = c["sched"] if variant == "current" else strip_for_repaired(specs, c["sched"])
+            sched = no_probes(c["sched"]) if variant == "current" else strip_for_repaired(specs, c["sched"])
             sp = "[" + "; ".join(coq_spec(a) for a in specs) + "]"
             obs = "[" + "; ".join("(%s, [%s])" % (r, "; ".join(coq_nats(q) for q in qs))
                                    for r, qs in sorted(c["obs"].items(), key=lambda x: int(x[0]))) + "]"
@@ -309,12 +353,22 @@ def run_sched_cases(ck, binp, cases):
     rc, out = ck.run([binp, "sched", path], timeout=1800)
     outs = {}
     done = False
+    started = None
     for l in out.splitlines():
         if l.startswith('{"kind":"sched"'):
             o = json.loads(l)
             outs[o["id"]] = o
+        elif l.startswith('{') and '"kind":"start"' in l:
+            started = json.loads(l)["id"]
         elif l.startswith('{') and '"kind":"done"' in l:
             done = True
+    m = re.search(r"(panic: .*|fatal error: .*)", out)
+    if not done and m and started is not None and started not in outs and started < len(cases):
+        c = cases[started]
+        i0 = out.index(m.group(1))
+        ck.violation({"kind": "forced-schedule-crash", "what": "the process crashed while forcing schedule %s: %s" % (c["tag"], m.group(1)),
+                      "case": {"specs": c["specs"], "sched": c["sched"]}, "output": out[i0:i0 + 5000]})
+        return outs
     if rc != 0 or not done or (len(outs) != len(cases) and not any(o.get("stuck") for o in outs.values())):
         ck.broken.append("forced-schedule harness failed rc=%d cases=%d/%d: %s" % (rc, len(outs), len(cases), out[-800:]))
     return outs
@@ -357,7 +411,7 @@ def main(ck):
             if fn.endswith(".case"):
                 c = json.load(open(os.path.join(corp, fn)))
                 cases.append({"sys": "corpus", "specs": [tuple(a) for a in c["specs"]], "sched": c["sched"], "tag": "corpus:" + fn})
-        cases += gen_schedules(ck, 300 if thorough else 70, 220 if thorough else 24, rng)
+        cases += gen_schedules(ck, 300 if thorough else 60, 220 if thorough else 24, rng)
         ck.log("forced schedules:", len(cases))
         outs = run_sched_cases(ck, bin_sched, cases)
         good = []
@@ -369,10 +423,14 @@ def main(ck):
             nq = {}
             cnt = {}
             for a in c["sched"]:
-                cnt[a] = cnt.get(a, 0) + 1
+                if a >= 0:
+                    cnt[a] = cnt.get(a, 0) + 1
             for a, sp in enumerate(c["specs"]):
                 if sp[0] == "R":
                     nq[str(a)] = cnt.get(a, 0) // 5
+            if o.get("probe_fail"):
+                ck.broken.append("forced schedule %d (%s): %s" % (i, c["tag"], o["probe_fail"]))
+                ck.nofail_detail = {"kind": "enabledness", "case": {"specs": c["specs"], "sched": c["sched"]}, "harness": o}
             c["obs"] = {r: [q or [] for q in (o["results"].get(r) or [])][:n] for r, n in nq.items()}
             if o.get("stuck") or o.get("err"):
                 if "PANIC" in (o.get("err") or ""):
@@ -402,7 +460,7 @@ def main(ck):
         hist = {}
         for i in good:
             c = cases[i]
-            kinds = {c["specs"][a][0] for a in c["sched"]}
+            kinds = {c["specs"][a][0] for a in c["sched"] if a >= 0}
             if {"W", "R", "F"} <= kinds:
                 nontriv.add((c["tag"], tuple(c["sched"])))
             hist[c["tag"].split(":")[0]] = hist.get(c["tag"].split(":")[0], 0) + 1
